@@ -466,8 +466,12 @@ def run_model(case, real: Real, driver, fix=(1, 1)):
                     evs = [x for x in evs if x]
                     rep = ask('events -')
                     for ev in evs:
-                        # one batch is handled without a tick in between (except while a value is being fetched)
-                        rep = ask('events ' + ev, nodrain=True)
+                        # The handlers of one batch may yield to the event loop (port.remove() awaits the cancelled
+                        # port tasks, handle_enable awaits a value fetch), so a hub tick can fall between two events of
+                        # a batch. The model therefore reads at every opportunity (before each event); which values
+                        # get reported does not depend on when they are read, except for a port removed / disabled
+                        # right after a push, where the real series may be shorter (subsequence rule at the checks).
+                        rep = ask('events ' + ev)
                         for tok in rep.split()[2:]:
                             if tok.startswith('GV:'):
                                 k = int(tok[3:])
